@@ -323,6 +323,14 @@ class NDArr:
                 v = v.flat[0]  # numpy<=1.24: size-1 array assigned to a scalar cell
             elif not isinstance(tgt, _np.ndarray):
                 raise ValueError("setting an array element with a sequence.")
+        if getattr(self, "_intfixed", False):
+            if isinstance(v, _np.ndarray):
+                w = _np.empty(v.shape, dtype=object)
+                for idx in _np.ndindex(v.shape):
+                    w[idx] = _cast(v[idx], int)
+                v = w
+            else:
+                v = _cast(v, int)
         self._a[kk] = v
 
     # --- arithmetic
@@ -517,7 +525,8 @@ def _cast(v, t):
         if isinstance(v, (SBool, _b.bool, _np.bool_)):
             return v + 0
         if isinstance(v, SReal):
-            raise ModelGap("astype(int) of symbolic real")
+            # C cast: truncation toward zero (symbolic reals are finite, never NaN)
+            return SInt(z3.If(v.e >= 0, z3.ToInt(v.e), -z3.ToInt(-v.e)))
         return _b.int(v)
     if t in (float, float64, "float", "float64", _b.float, _np.float64):
         if isinstance(v, SInt):
@@ -577,18 +586,29 @@ def _shape(shape):
     return (_b.int(shape),)
 
 
+def _intlike(dt):
+    if isinstance(dt, _DType):
+        return dt.kind == "i"
+    return dt is not None and dt in (int, _b.int, int64, "int", "int64", _np.int64)
+
+
 def zeros(shape, dtype=None):
-    return full(shape, 0 if dtype in (int, _b.int, int64) else 0.0)
+    return full(shape, 0 if _intlike(dtype) else 0.0, dtype)
 
 
 def ones(shape, dtype=None):
-    return full(shape, 1 if dtype in (int, _b.int, int64) else 1.0)
+    return full(shape, 1 if _intlike(dtype) else 1.0, dtype)
 
 
 def full(shape, v, dtype=None):
     a = _np.empty(_shape(shape), dtype=_b.object)
+    if _intlike(dtype):
+        v = _cast(v, int)
     a.fill(v)
-    return NDArr(a)
+    r = NDArr(a)
+    if _intlike(dtype):
+        r._intfixed = True  # an integer buffer: later assignments are cast (truncated) like numpy does
+    return r
 
 
 def zeros_like(x, dtype=None):
